@@ -10,3 +10,5 @@ else git -C /repo checkout -- . 2>/dev/null; git -C /repo reset -q --hard HEAD >
 (cd /repo && go build ./... 2>&1 | head -3)
 for p in $props; do timeout 600 ./check $p quick 2>&1 | grep -v "^KNOWN" | grep -E "violation:|^$p " | head -2 | cut -c1-220; done
 git -C /repo checkout -- . ; git -C /repo clean -fdq
+# the evidence files describe the unchanged tree: what the runs against a seeded change wrote is dropped
+git -C /verif checkout -q -- evidence 2>/dev/null
